@@ -1,3 +1,4 @@
 pub mod data;
 pub mod expr;
+pub mod history;
 pub mod wxml;
